@@ -900,10 +900,27 @@ func (e *emitter) loop(l *LoopRec) bool {
 func (c *Ctx) emitted(fd *ast.FuncDecl, paths []*Path, n int64) ([]sTok, string) {
 	v := c.view(fd)
 	// the path that is not an in-loop exit
+	e := &emitter{c: c, v: v, fd: fd, n: n, iter: -1, bools: map[string]bool{}, ints: map[string]int64{}, bufs: map[string][]sTok{}, lists: map[string][][]sTok{}, strs: map[string][]sTok{}, serName: c.FuncObj(fd).Name()}
+	// the path taken for n elements: decisions outside the loop may only depend on the element count (an empty fast path)
 	var main *Path
 	for _, p := range paths {
 		if p.End != "return" || len(p.Vals) != 1 {
 			return nil, "a path does not return the text"
+		}
+		feasible := true
+		for _, cd := range p.Conds() {
+			te := &termEnv{hook: e.hook}
+			b, ok := te.bool(cd.T)
+			if !ok {
+				return nil, "a decision outside the loop that is not a function of the element count: " + c.termStr(cd.T)
+			}
+			if b != cd.Truth {
+				feasible = false
+				break
+			}
+		}
+		if !feasible {
+			continue
 		}
 		if main != nil {
 			return nil, "more than one path (a data-dependent shortcut)"
@@ -912,11 +929,6 @@ func (c *Ctx) emitted(fd *ast.FuncDecl, paths []*Path, n int64) ([]sTok, string)
 	}
 	if main == nil {
 		return nil, "no path"
-	}
-	e := &emitter{c: c, v: v, fd: fd, n: n, iter: -1, bools: map[string]bool{}, ints: map[string]int64{}, bufs: map[string][]sTok{}, lists: map[string][][]sTok{}, strs: map[string][]sTok{}, serName: c.FuncObj(fd).Name()}
-	for _, cd := range main.Conds() {
-		_ = cd
-		return nil, "a decision outside the loop"
 	}
 	if !e.steps(main.Steps) {
 		return nil, e.why
